@@ -233,7 +233,14 @@ def model_line(case, floats):
                           case.get("ro", False)]]
     elif op == "run":
         v = case.get("version")
-        body = ["run", [fl, env, [] if not v else [v["name"], v["text"], bool(v.get("last"))], sx_cmd(case["root"]), case["argv"]]]
+        root = case["root"]
+        if v and v.get("again"):
+            # Version called twice: the first call is an ordinary bool option, the second one the version flag
+            first = {"t": "opt", "kind": "bool", "name": v["name"], "desc": "Show the version and exit", "env": "", "hide": True,
+                     "def": ["false"], "sbu": False, "ptr": False}
+            root = dict(root, decls=(root["decls"] + [first]) if v.get("last") else ([first] + root["decls"]))
+            v = {"name": v["again"]["name"], "text": v["again"]["text"], "last": v.get("last")}
+        body = ["run", [fl, env, [] if not v else [v["name"], v["text"], bool(v.get("last"))], sx_cmd(root), case["argv"]]]
     elif op == "sentence":
         t = case.get("target")
         body = ["sentence", [fl, env, [sx_decl(d) for d in case["decls"]], case["spec"], case["argv"],
